@@ -371,7 +371,10 @@ func mcLattice(r *ev.Run, n [3]int, stride uint64) {
 		d float64
 	}{{model3d.XYZ(0, 0, 0), 1}, {model3d.XYZ(0.1, -0.7, 2.3), 0.3},
 		// very small and very large spacings: the search must still halve the bracket `iters` times
-		{model3d.XYZ(0, 0, 0), 1.0 / (1 << 22)}, {model3d.XYZ(0, 0, 0), 1 << 12}}
+		{model3d.XYZ(0, 0, 0), 1.0 / (1 << 22)}, {model3d.XYZ(0, 0, 0), 1 << 12},
+		// a million spacings from the origin (exact dyadic coordinates): positions must come from the lattice, not from
+		// arithmetic that loses the low bits of large coordinates
+		{model3d.XYZ(1<<20, -(1 << 21), 1<<19), 1}}
 	ev.Parallel(16, 16, func(w int) {
 		for bits := uint64(w); bits < total; bits += 16 {
 			if stride > 1 && (bits*2654435761>>7)%stride != 0 {
@@ -532,7 +535,7 @@ func msLattice(r *ev.Run, n [2]int) {
 			for pi, pl := range []struct {
 				o model2d.Coord
 				d float64
-			}{{model2d.XY(0, 0), 1}, {model2d.XY(0.1, -0.7), 0.3}, {model2d.XY(0, 0), 1.0 / (1 << 22)}, {model2d.XY(0, 0), 1 << 12}} {
+			}{{model2d.XY(0, 0), 1}, {model2d.XY(0.1, -0.7), 0.3}, {model2d.XY(0, 0), 1.0 / (1 << 22)}, {model2d.XY(0, 0), 1 << 12}, {model2d.XY(1<<20, -(1 << 21)), 1}} {
 				for kind := 0; kind < 4; kind++ {
 					if pi == 1 && kind == 0 {
 						continue
